@@ -693,7 +693,6 @@ func TestZZVerifG10Explore(t *testing.T) {
 	t.Logf("log tail: %s", a.logTail())
 }
 
-
 // ------------------------------------------------------- concrete universe
 
 // zzG10Lab is a label of specs/Persist.tla.
@@ -1174,38 +1173,38 @@ func zzG10Name(table map[string]int, n int64, prefix string) (s string) {
 // zzG10Raw is the concrete form of the settings as one place shows them,
 // already in common units; absOf turns it into the abstract record.
 type zzG10Raw struct {
-	ups, boot, lptr                      []string
-	blkMode, blk4, blk6                  string
-	blkttl, rl, rl4, csize, tmin, tmax   int64
-	utoMs                                int64
-	prot, dnssec, noaaaa, useptr         bool
-	ecsOn, ecsCustom                     bool
-	ecsIP, upmode                        string
-	fen                                  bool
-	fivl                                 int64
-	rules                                []string
-	lists                                map[string]string // url -> on/off (without the background list)
-	sb, par                              bool
-	ss                                   map[string]bool
-	rw                                   [][2]string
-	svcIDs                               []string
-	svcSched                             int // number of days with a range
-	svcTZ                                string
-	allowed, disallowed, hosts           []string
-	clients                              []zzG10M
-	qEnabled, qAnon                      bool
-	qIvl                                 int64
-	qIgn                                 []string
-	sEnabled                             bool
-	sIvl                                 int64
-	sIgn                                 []string
-	lang, theme                          string
-	lang2                                string
-	dhcpOn                               bool
-	dhcpIface                            string
-	dhcp4                                [5]string
-	leases                               [][3]string
-	bad                                  []string
+	ups, boot, lptr                    []string
+	blkMode, blk4, blk6                string
+	blkttl, rl, rl4, csize, tmin, tmax int64
+	utoMs                              int64
+	prot, dnssec, noaaaa, useptr       bool
+	ecsOn, ecsCustom                   bool
+	ecsIP, upmode                      string
+	fen                                bool
+	fivl                               int64
+	rules                              []string
+	lists                              map[string]string // url -> on/off (without the background list)
+	sb, par                            bool
+	ss                                 map[string]bool
+	rw                                 [][2]string
+	svcIDs                             []string
+	svcSched                           int // number of days with a range
+	svcTZ                              string
+	allowed, disallowed, hosts         []string
+	clients                            []zzG10M
+	qEnabled, qAnon                    bool
+	qIvl                               int64
+	qIgn                               []string
+	sEnabled                           bool
+	sIvl                               int64
+	sIgn                               []string
+	lang, theme                        string
+	lang2                              string
+	dhcpOn                             bool
+	dhcpIface                          string
+	dhcp4                              [5]string
+	leases                             [][3]string
+	bad                                []string
 }
 
 func (a *zzG10Arena) absOf(r *zzG10Raw) (st zzG10M) {
@@ -1580,7 +1579,7 @@ func (a *zzG10Arena) reported() (st zzG10M, err error) {
 		sEnabled: zzG10Bool(zzG10Dig(sc, "enabled")), sIvl: zzG10Int(zzG10Dig(sc, "interval")),
 		sIgn: zzG10Strs(zzG10Dig(sc, "ignored")),
 		lang: zzG10Str(zzG10Dig(prof, "language")), theme: zzG10Str(zzG10Dig(prof, "theme")),
-		lang2: zzG10Str(zzG10Dig(lng, "language")),
+		lang2:  zzG10Str(zzG10Dig(lng, "language")),
 		dhcpOn: zzG10Bool(zzG10Dig(dh, "enabled")), dhcpIface: zzG10Str(zzG10Dig(dh, "interface_name")),
 		dhcp4: [5]string{zzG10Str(zzG10Dig(dh, "v4", "gateway_ip")), zzG10Str(zzG10Dig(dh, "v4", "subnet_mask")),
 			zzG10Str(zzG10Dig(dh, "v4", "range_start")), zzG10Str(zzG10Dig(dh, "v4", "range_end")),
@@ -1673,9 +1672,9 @@ func (a *zzG10Arena) fileState() (st zzG10M, err error) {
 		fen: zzG10Bool(zzG10Dig(y, "filtering", "filtering_enabled")), fivl: zzG10Int(zzG10Dig(y, "filtering", "filters_update_interval")),
 		rules: zzG10Strs(zzG10Dig(y, "user_rules")), lists: map[string]string{},
 		sb: zzG10Bool(zzG10Dig(y, "filtering", "safebrowsing_enabled")), par: zzG10Bool(zzG10Dig(y, "filtering", "parental_enabled")),
-		ss:     map[string]bool{},
-		svcIDs: zzG10Strs(zzG10Dig(y, "filtering", "blocked_services", "ids")),
-		svcTZ:  zzG10Str(zzG10Dig(y, "filtering", "blocked_services", "schedule", "time_zone")),
+		ss:      map[string]bool{},
+		svcIDs:  zzG10Strs(zzG10Dig(y, "filtering", "blocked_services", "ids")),
+		svcTZ:   zzG10Str(zzG10Dig(y, "filtering", "blocked_services", "schedule", "time_zone")),
 		allowed: zzG10Strs(zzG10Dig(y, "dns", "allowed_clients")), disallowed: zzG10Strs(zzG10Dig(y, "dns", "disallowed_clients")),
 		hosts:    zzG10Strs(zzG10Dig(y, "dns", "blocked_hosts")),
 		qEnabled: zzG10Bool(zzG10Dig(y, "querylog", "enabled")), qAnon: zzG10Bool(zzG10Dig(y, "dns", "anonymize_client_ip")),
@@ -1796,7 +1795,9 @@ func (a *zzG10Arena) effects(st zzG10M) (bad []string) {
 	s := func(c string) string { v, _ := st[c].(string); return v }
 	sub := func(c, k string) string { m, _ := st[c].(zzG10M); v, _ := m[k].(string); return v }
 	known := func(c string) bool { return !strings.HasPrefix(s(c), "?") && s(c) != "bad" && s(c) != "unknown" }
-	miss := func(c, want, got string) { bad = append(bad, fmt.Sprintf("%s=%s: expected %s, saw %s", c, zzG10Canon(st[c]), want, got)) }
+	miss := func(c, want, got string) {
+		bad = append(bad, fmt.Sprintf("%s=%s: expected %s, saw %s", c, zzG10Canon(st[c]), want, got))
+	}
 
 	// Safe browsing and parental control ask a remote service for every
 	// name: no DNS probes at all then.
